@@ -248,7 +248,7 @@ class Gen:
                 s["argk"], s["argv"] = "c", r.randint(0, 3)
         return dict(nin=self.nin, nargs=self.nargs, bodies=self.bodies, sites=self.sites, wits=self.wits,
                     rels=self.rels, sched=o["sched"], roots=[roots[1], roots[2]], nmods=nmods, const0=self.const0,
-                    widecond=r.random() < o["p_widecond"])
+                    widecond=o["p_widecond"] > 0 and r.random() < o["p_widecond"])
 
     def wrap_in_struct(self, node):
         r = self.r
